@@ -941,6 +941,10 @@ class Frame:
         return out
 
     def block(self, body, env, g):
+        if len(body) > 1 and isinstance(body[-1], ast.Raise):
+            # an error path is cut at the check that guards it: statements that only build the
+            # message of the exception are not executed (stated stub)
+            body = body[-1:]
         for st in body:
             g = self.stmt(st, env, g)
             if g is False:
